@@ -192,6 +192,14 @@ func validateTileMatrixSet(tms tms20.TileMatrixSet, tileMatrixIDs []tms20.TMID) 
 	if err := pointindex.IsQuadTree(tms); err != nil {
 		return err
 	}
+	if len(tileMatrixIDs) == 0 {
+		return errors.New("no tile matrices given")
+	}
+	for _, tmID := range tileMatrixIDs {
+		if _, exists := tms.TileMatrices[tmID]; !exists {
+			return fmt.Errorf("tile matrix %d does not exist in tile matrix set %s", tmID, tms.ID)
+		}
+	}
 	deepestTMID := slices.Max(tileMatrixIDs)
 	stats, deviationInUnits, deviationInPixels, err := pointindex.DeviationStats(tms, deepestTMID)
 	if err != nil {
